@@ -108,6 +108,8 @@ Create HintDb irp discriminated.
 #[export] Hint Extern 1 (irpq _ _ _ (dfs_ids _ _)) => (eapply irpq_dfs_ids; np) : irp.
 #[export] Hint Extern 1 (irpq _ _ _ (named_paths _ _)) => (eapply irpq_named_paths; outl) : irp.
 #[export] Hint Extern 1 (irpq _ _ _ (ref_texts _ _ _)) => (eapply irpq_ref_texts; outl) : irp.
+#[export] Hint Extern 1 (irpq _ _ _ (parent_of ?n)) =>
+  (match goal with H : GoodN _ _ n |- _ => eapply irpq_parent_of; exact H end) : irp.
 #[export] Hint Extern 1 (irpq _ _ _ (first_named _ _)) => (eapply irpq_first_named; outl) : irp.
 #[export] Hint Extern 1 (irpq _ _ _ (get_sub_element _ _)) => (eapply irpq_get_sub_element; np) : irp.
 #[export] Hint Extern 1 (irpq _ _ _ (first_named_item _ _ _ _)) => (eapply irpq_first_named_item; outl) : irp.
@@ -229,5 +231,22 @@ Proof. intros Hh. unfold e_remove_sub_element_kind. irp_tac. Qed.
 
 Lemma irp_set_item_name h nm : ~ P h -> irp (e_set_item_name T check_fn LATEST h nm).
 Proof. intros Hh. unfold e_set_item_name. irp_tac. Qed.
+
+(* ---------- move ---------- *)
+Lemma irpq_move_position self mv pos e : ~ P self -> ~ P mv -> irpq NPq (move_element_position self mv pos e).
+Proof. intros Hs Hmv. unfold move_element_position. irp_tac. Qed.
+Hint Resolve irpq_move_position : irp.
+Lemma irpq_move_local self mv pos m version :
+  ~ P self -> ~ P mv -> m <> b -> irpq NPq (move_element_local T check_fn self mv pos m version).
+Proof. intros Hs Hmv Hm. unfold move_element_local. irp_tac. Qed.
+Hint Resolve irpq_move_local : irp.
+Lemma irpq_move_full self mv pos m m_src version :
+  ~ P self -> ~ P mv -> m <> b -> m_src <> b -> irpq NPq (move_element_full T tab_en check_fn self mv pos m m_src version).
+Proof. intros Hs Hmv Hm Hms. unfold move_element_full. irp_tac. Qed.
+Hint Resolve irpq_move_full : irp.
+Lemma irpq_e_move h mv : ~ P h -> ~ P mv -> irpq NPq (e_move_element_here T tab_en check_fn LATEST h mv).
+Proof. intros Hh Hmv. unfold e_move_element_here. irp_tac. Qed.
+Lemma irpq_e_move_at h mv pos : ~ P h -> ~ P mv -> irpq NPq (e_move_element_here_at T tab_en check_fn LATEST h mv pos).
+Proof. intros Hh Hmv. unfold e_move_element_here_at. irp_tac. Qed.
 
 End Ops.
